@@ -2,6 +2,7 @@ SPECIFICATION Spec
 CONSTANTS
   Families = {"A", "B", "C1", "C2", "E"}
 INVARIANT CacheInDatainfo
+INVARIANT ConstantsHold
 PROPERTY DriverOnlyIfAllowed
 PROPERTY ErrorLeavesNoTrace
 PROPERTY ValidIsServed
